@@ -16,6 +16,9 @@ const WORDS: &[&str] = &[
     "a", "media", "copies", "sides", "job-name", "printer-uri", "x", "é", "日本", "😀", "media-col", "media-size",
     "x-dimension", "y-dimension", "attributes-charset", "attributes-natural-language", "job-id", "job-uri", "", "none",
     "printer-state", "printer-state-reasons", "paused", "utf-8", "en", "ß", "Ω-ω", "two-sided-long-edge",
+    // near misses of the names the encoder treats specially
+    "Job-Id", "JOB-ID", "PRINTER-URI", "Printer-Uri", "Attributes-Charset", "ATTRIBUTES-NATURAL-LANGUAGE", "Job-Uri",
+    "job-id ", "job-ids", "xjob-id", "printer-uri/", "attributes-charse", "job_id",
 ];
 
 pub fn gen_len(r: &mut Rng, lim: &Limits) -> usize {
@@ -236,6 +239,59 @@ pub fn gen_msg(r: &mut Rng, lim: &Limits) -> Msg {
         id: if r.chance(1, 2) { 1 } else { r.next() as u32 },
         groups,
     }
+}
+
+/// deterministic boundary suite: every string-carrying kind at the lengths where 8-, 15- and 16-bit length
+/// arithmetic changes behaviour, as attribute value, set element, collection member, and as names
+pub fn boundary_msgs() -> Vec<Msg> {
+    let lens = [0usize, 1, 127, 128, 255, 256, 257, 32767, 32768, 32769, 65534, 65535];
+    let mut out = vec![];
+    let mk = |attrs: Vec<(String, IppValue)>| Msg { version: 0x0101, op: 2, id: 1, groups: vec![(1, attrs)] };
+    let text = |n: usize| "x".repeat(n);
+    for &n in &lens {
+        let ctors: Vec<fn(String) -> IppValue> = vec![
+            IppValue::OctetString, IppValue::TextWithoutLanguage, IppValue::NameWithoutLanguage, IppValue::Charset,
+            IppValue::NaturalLanguage, IppValue::Uri, IppValue::UriScheme, IppValue::Keyword, IppValue::MimeMediaType, IppValue::MemberAttrName,
+        ];
+        for c in ctors {
+            out.push(mk(vec![("a".into(), c(text(n)))]));
+        }
+        out.push(mk(vec![("o".into(), IppValue::Other { tag: 0x2f, data: vec![0xee; n].into() })]));
+        if n >= 1 {
+            out.push(mk(vec![(text(n), IppValue::Integer(1))])); // attribute name of that length
+            let mut m = BTreeMap::new();
+            m.insert(text(n), IppValue::Keyword(text(n.min(300))));
+            out.push(mk(vec![("c".into(), IppValue::Collection(m))])); // member name of that length
+        }
+        // with-language: the total is limited to 65535 = len + len + 4
+        if n + 4 <= 65535 {
+            out.push(mk(vec![("l".into(), IppValue::TextWithLanguage { language: "en".repeat(0), text: text(n.min(65531)) })]));
+            out.push(mk(vec![("l".into(), IppValue::NameWithLanguage { language: text(n.min(65531)), name: String::new() })]));
+        }
+        if 2 * n + 4 <= 65535 {
+            out.push(mk(vec![("l".into(), IppValue::TextWithLanguage { language: text(n), text: text(n) })]));
+            let mut m = BTreeMap::new();
+            m.insert("m".to_string(), IppValue::Array(vec![IppValue::NameWithLanguage { language: text(n), name: text(n) }, IppValue::Keyword(text(n))]));
+            out.push(mk(vec![("c".into(), IppValue::Collection(m))]));
+        }
+        out.push(mk(vec![("s".into(), IppValue::Array(vec![IppValue::Keyword(text(n)), IppValue::TextWithoutLanguage(text(n))]))]));
+    }
+    // names that differ from the specially treated operation attributes only by case or by one character
+    for name in ["Job-Id", "JOB-URI", "Printer-Uri", "ATTRIBUTES-CHARSET", "Attributes-Natural-Language", "job-id ", "job-ids", "xprinter-uri"] {
+        out.push(mk(vec![
+            ("attributes-charset".into(), IppValue::Charset("utf-8".into())),
+            ("attributes-natural-language".into(), IppValue::NaturalLanguage("en".into())),
+            (name.into(), IppValue::Integer(7)),
+        ]));
+        out.push(Msg { version: 0x0101, op: 2, id: 1, groups: vec![(1, vec![]), (2, vec![(name.into(), IppValue::Integer(7))]), (1, vec![(name.into(), IppValue::Boolean(true))])] });
+    }
+    // the specially treated names themselves in groups other than the first operation group
+    for name in ["attributes-charset", "attributes-natural-language", "printer-uri", "job-uri", "job-id"] {
+        for tag in [1u8, 2, 4, 5] {
+            out.push(Msg { version: 0x0101, op: 0, id: 1, groups: vec![(1, vec![("x".into(), IppValue::Integer(1))]), (tag, vec![(name.into(), IppValue::Keyword("v".into())), ("y".into(), IppValue::NoValue)])] });
+        }
+    }
+    out
 }
 
 pub fn gen_payload(r: &mut Rng) -> Vec<u8> {
